@@ -879,8 +879,33 @@ def _unroll_constant_tables(tree):
             if isinstance(st, ast.For) and not st.orelse and fn is not None:
                 local_tbl = _local_table(st, out, fn)
             if local_tbl is not None or (isinstance(st, ast.For) and not st.orelse and isinstance(st.iter, ast.Name) and st.iter.id in tables and st.iter.id not in shadow):
-                tnames = [st.target.id] if isinstance(st.target, ast.Name) else \
-                    ([e.id for e in st.target.elts] if isinstance(st.target, (ast.Tuple, ast.List)) and all(isinstance(e, ast.Name) for e in st.target.elts) else None)
+                def _pattern_names(t_):
+                    if isinstance(t_, ast.Name):
+                        return [t_.id]
+                    if isinstance(t_, (ast.Tuple, ast.List)) and not any(isinstance(e, ast.Starred) for e in t_.elts):
+                        out_ = []
+                        for e in t_.elts:
+                            sub_ = _pattern_names(e)
+                            if sub_ is None:
+                                return None
+                            out_.extend(sub_)
+                        return out_
+                    return None
+
+                def _match_pattern(t_, row_):
+                    """bind the names of a (possibly nested) tuple pattern to the sub-expressions of a literal row; None when the shapes differ"""
+                    if isinstance(t_, ast.Name):
+                        return {t_.id: row_}
+                    if isinstance(row_, (ast.Tuple, ast.List)) and len(row_.elts) == len(t_.elts) and not any(isinstance(e, ast.Starred) for e in row_.elts):
+                        m_ = {}
+                        for a_, b_ in zip(t_.elts, row_.elts):
+                            sub_ = _match_pattern(a_, b_)
+                            if sub_ is None:
+                                return None
+                            m_.update(sub_)
+                        return m_
+                    return None
+                tnames = _pattern_names(st.target)
                 rows = local_tbl[0].elts if local_tbl is not None else tables[st.iter.id].elts
                 inner = [n for b in st.body for n in ast.walk(b)]
                 simple = tnames is not None and not any(isinstance(n, (ast.Break, ast.Continue, ast.FunctionDef, ast.Lambda, ast.ClassDef, ast.Yield, ast.YieldFrom)) for n in inner) \
@@ -895,12 +920,12 @@ def _unroll_constant_tables(tree):
                                 inside |= {id(n) for n in ast.walk(f2.target)} | {id(n) for b in f2.body for n in ast.walk(b)}
                     simple = not any(isinstance(n, ast.Name) and n.id in tnames and id(n) not in inside for n in ast.walk(fn))
                 if simple:
-                    ok_rows = all(isinstance(st.target, ast.Name) or (isinstance(r, (ast.Tuple, ast.List)) and len(r.elts) == len(tnames)) for r in rows)
+                    ok_rows = all(_match_pattern(st.target, r) is not None for r in rows)
                     # the loop variables must not be read after the loop (they would keep the last row's values)
                     if ok_rows:
                         new = []
                         for r in rows:
-                            mapping = {tnames[0]: r} if isinstance(st.target, ast.Name) else dict(zip(tnames, r.elts))
+                            mapping = _match_pattern(st.target, r)
                             for b in st.body:
                                 nb = Sub(mapping).visit(_copy.deepcopy(b))
                                 new.append(ast.copy_location(nb, st))
